@@ -59,9 +59,13 @@ claim("C03", "proof",
       "Proves each listed symmetry / cross-function identity for all inputs at once as equality of signed normal forms of the expanded expression DAGs (complex sub-operations expanded by the package's own definitions): rotation identities under no assumption but non-NaN inputs and the property's own case split; conjugation, oddness, evenness for non-zero, non-NaN components. Quick: complex128/float64; thorough adds complex64/float32, untyped signatures and context parameters.",
       "trusted: package tracer/expansion as front end; exactness of the sign algebra in IEEE RN arithmetic; sign symmetry of native atan2/sin/cos; not decided: zero components for conjugation/oddness, sign of exactly cancelling sums",
       "normal-form equality (exact sign algebra) over the expression IR obtained through the package's tracer", "DESIGN.md §3/C03")
+claim("C12", "other",
+      "Partial: exact-sum conservation of the functional (select-based) renormalize for list lengths 2..5 (thorough: 2..7), fast and safe modes, in every case split, by interpreting the traced expression DAG in an affine-equality domain (recognised 2Sum/Fast2Sum pairs are exact, other rounded operations are fresh atoms, `e == 0` adds a linear constraint, integer bookkeeping of nztopk evaluated per case); maximal-size tables against the finfo formula. Not decided: non-overlap/ordering, two-pass claim, product/square error bounds, eager variant.",
+      "trusted: package tracer as front end; 2Sum/Fast2Sum exactness absent overflow; fast mode under its documented magnitude-ordering precondition",
+      "abstract interpretation of the expression IR in an affine-equality (Karr-style) domain with case splitting", "DESIGN.md §3/C12")
 for p, why in dict(
     C01="bounds ULP error of libm-based formulas over all complex inputs: a numeric quantity no static argument in reach can bound",
-    C02="same on the real line; float32 exhaustion is execution, not static analysis", C12="(not built yet)",
+    C02="same on the real line; float32 exhaustion is execution, not static analysis",
     C14="metric laws of integer arithmetic on runtime bit patterns; nothing structural beyond a width table",
 ).items():
     na(p, why)
